@@ -171,11 +171,18 @@ def run(pid, tier, seed):
         if tiny_many:
             long_stream = False
             nf = rng.randint(150, 300)
+        backlog = (h % 7 == 6)         # nothing is pulled until more than 64 KiB have piled up
+        if backlog:
+            long_stream = tiny_many = False
+            nf = rng.choice([2, 3, rng.randint(700, 900)])
+        stun_like = (h % 6 == 1)       # payloads that are STUN messages - alone, with trailing bytes, or two in a frame
         frames = []
         for _ in range(nf):
             r = rng.random()
             if tiny_many:
                 ln = rng.choice([0, 1, 2, 3, 3, 4, 5])
+            elif backlog:
+                ln = rng.choice([65535, 40000, 30000, 65533]) if nf < 10 else rng.choice([98, 98, 100, 1, 0, 254])
             elif h in (0, 1) and len(frames) == 1:
                 ln = 65535 - h          # every run has frames of the two largest sizes, between smaller ones
             elif long_stream:
@@ -194,6 +201,22 @@ def run(pid, tier, seed):
                 fr = [0] * ln
             else:
                 fr = [rng.choice([0, 1, 2, 255]) for _ in range(ln)]
+            if stun_like and not backlog and rng.random() < 0.7:
+                def stun(body_len, declared=None):
+                    d = body_len if declared is None else declared
+                    return [rng.choice([0, 1]), rng.choice([1, 0x11]), d >> 8, d & 255, 0x21, 0x12, 0xa4, 0x42] + \
+                           [rng.randrange(256) for _ in range(12)] + [0x80, 0x22, 0, max(0, body_len - 4)][:min(4, body_len)] + [65] * max(0, body_len - 4)
+                k = rng.randrange(5)
+                if k == 0:
+                    fr = stun(8)
+                elif k == 1:
+                    fr = stun(8) + [rng.randrange(256) for _ in range(rng.choice([1, 4, 20]))]     # trailing bytes
+                elif k == 2:
+                    fr = stun(8) + stun(12)                                                        # two messages, one frame
+                elif k == 3:
+                    fr = stun(12, declared=rng.choice([0, 4, 8]))                                  # header declares less
+                else:
+                    fr = stun(4, declared=rng.choice([8, 400]))                                    # header declares more
             frames.append(fr)
         tail = rng.choice([[], [], [0], [255], [0, 5, 1, 2], [255, 255, 7]])
         stream = []
@@ -216,9 +239,15 @@ def run(pid, tier, seed):
                 n = rng.randint(1, 700)
             else:
                 n = len(stream) - pos
+            if backlog:
+                n = rng.choice([1460, 65536, 9000, 4096])
             n = min(n, len(stream) - pos)
             steps.append({"a": "push", "bytes": stream[pos:pos + n]})
             pos += n
+            if rng.random() < 0.12:
+                steps.append({"a": "push", "bytes": []})       # a zero-length segment is a legal way to cut a stream
+            if backlog and pos < min(len(stream), 70000 + 1460 * (h % 5)):
+                continue
             for _ in range(rng.choice([0, 0, 1, 1, 2, 3])):
                 steps.append({"a": "pull"})
         for _ in range(len(frames) + 2):
